@@ -677,6 +677,15 @@ class System:
                 del [self._g.attrs["groups"][self._g[c]._params["name"]]]
                 del [self._g.attrs["rails"][self._g[c]._params["name"]]]
                 self._g.remove_node(c)
+        # parent references held by the childs (PMux input order) move to the new parent
+        if not del_childs and childs[eidx] != -1:
+            pname = self._g[parents[eidx][0]]._params["name"]
+            for c in childs[eidx]:
+                refs = [
+                    pname if self._get_index(p) == eidx else p
+                    for p in self._g.attrs["pnames"][c]
+                ]
+                self._g.attrs["pnames"][c] = list(dict.fromkeys(refs))
         # delete node
         self._g.remove_node(eidx)
         del [self._g.attrs["nodes"][name]]
